@@ -157,6 +157,32 @@ def handle (args : List String) : String :=
   | ["scatterDyn", st, ax, d, t] =>
     (match parseOInt st, parseOInt ax, parseOShape d, parseOShape t with
      | some st, some ax, some d, some t => showB (scatterAllDynamic st ax d t) | _, _, _, _ => bad)
+  | ["scatterStatic", red, d, u, idx] =>
+    (match parseOShape d, parseOShape u with
+     | some d, some u =>
+       let rows : Option (Option (List (List Int))) :=
+         if idx == "N" then some none
+         else if idx == "-" then some (some [])
+         else ((idx.splitOn ";").mapM parseInts).map some
+       (match rows with
+        | some r => showB (scatterAllStatic (red == "1") d u r)
+        | none => bad)
+     | _, _ => bad)
+  | ["redundantSlice", st, en, ax, sp, d] =>
+    (match parseOInt st, parseOInt en, parseOInt ax, parseOInt sp, parseOShape d with
+     | some st, some en, some ax, some sp, some d => showB (redundantSlice st en ax sp d)
+     | _, _, _, _, _ => bad)
+  | ["sliceSameShape", d, o, sp] =>
+    (match parseOShape d, parseOShape o, parseOInts sp with
+     | some d, some o, some sp => showB (sliceSameShape d o sp) | _, _, _ => bad)
+  | ["squeezeReshape", x] =>
+    (match parseOShape x with | some x => showB (squeezeReshape1d x) | _ => bad)
+  | ["getShapeValue", kind, i64, nd, vals, sym] =>
+    (match nd.toNat?, parseInts vals, parseOShape sym with
+     | some nd, some vals, some sym =>
+       let c : Option ConstInfo := if kind == "c" then some ⟨i64 == "1", nd, vals⟩ else none
+       showOShape (getShapeValue c sym)
+     | _, _, _ => bad)
   | ["broadcast", a, b] =>
     (match parseInts a, parseInts b with
      | some a, some b => showOInts (broadcast a b) | _, _ => bad)
